@@ -371,6 +371,12 @@ func (t *Transcript) CarriesInjected() bool {
 	if stderrors.Is(t.Err, ErrInjected) {
 		return true
 	}
+	// a string panic of the host is carried as errors.ExternalNonError{Recovered: <the string>} somewhere in the chain; the pretty
+	// printed text of the outer error need not repeat it (e.g. when the source excerpt is all that is printed)
+	var nonError cerrors.ExternalNonError
+	if stderrors.As(t.Err, &nonError) && strings.Contains(fmt.Sprint(nonError.Recovered), InjectedPanicString) {
+		return true
+	}
 	return strings.Contains(t.Err.Error(), InjectedPanicString)
 }
 
